@@ -66,7 +66,7 @@ SPEC = dict(
     assumptions=["prior content of config-capable files is valid TOML/INI (init appends to it)",
                  "the initial version is '<current UTC year>.1001-alpha'"],
     required=["layouts", "init_appended_to_existing_file", "init_created_new_file", "show_ok", "second_init_refused",
-              "existing_section_preferred", "existing_section_with_comment_after_header", "existing_section_with_blanks_around_header", "unrelated_content_that_mentions_the_markers", "dry_runs_clean", "pinned_clock_cases"],
+              "existing_section_preferred", "existing_section_with_comment_after_header", "existing_section_with_blanks_around_header", "unrelated_content_that_mentions_the_markers", "existing_section_far_down_a_long_file", "dry_runs_clean", "pinned_clock_cases"],
     anchors=[("config", "_pick_config_filepath"), ("config", "default_config"), ("config", "write_content"),
              ("cli", "init")],
     exhaustive={"quick": True, "thorough": True},
@@ -125,6 +125,13 @@ def cases(ctx):
             yield {"plain": [True, False, False], "cfgs": cfgs}
         k += 1
     for i, fn in enumerate(CONFIGS):
+        for others in (["unrelated"] * 4, ["empty", "absent", "unrelated", "absent"]):
+            cfgs = list(others)
+            cfgs.insert(i, "section_far")
+            if ctx.mine(k):
+                yield {"plain": [True, False, True], "cfgs": cfgs}
+            k += 1
+    for i, fn in enumerate(CONFIGS):
         for opt in ("section_t", "section_i"):
             if opt == "section_i" and fn == "setup.cfg":
                 continue        # (an indented line is a continuation line for configparser, not a header)
@@ -178,8 +185,13 @@ def run_layout(ctx, case, bvu):
             ctx.count("unrelated_content_that_mentions_the_markers")
         elif opt == "nonl":
             files[fn] = UNRELATED[fn].rstrip("\n")   # prior content whose last line has no newline
-        elif opt in ("section", "section#", "section_t", "section_i", "section_s"):
+        elif opt in ("section", "section#", "section_t", "section_i", "section_s", "section_far"):
             sec = section(fn)
+            if opt == "section_far":
+                # the section stands far down a long file (after more than 8 KiB of other content)
+                pad = "".join(f"# classifier line {i:04d}: Programming Language :: Python :: Implementation\n" for i in range(150))
+                sec = pad + "\n" + sec
+                ctx.count("existing_section_far_down_a_long_file")
             if opt == "section_s":
                 # blanks inside the brackets of the header (legal TOML)
                 head, rest = sec.split("\n\n")[0].split("\n", 1)
